@@ -246,7 +246,7 @@ Proof.
     rewrite (scan_len_cons f rest W) in Hov.
     destruct (N.leb_spec two64 (fo + f_rows f)); [lia|].
     destruct (N.leb_spec (fo + f_rows f) so) as [Hskip|Hstay].
-    + destruct (IH (fo + f_rows f) om_new so Hwf' Hskip ltac:(lia)) as [sk [frs' [st' [E [Hsplit [Hle [_ [Hnew Hhead]]]]]]]].
+    + destruct (IH (fo + f_rows f) om_new so Hwf' Hskip ltac:(lia)) as [sk [frs' [st' [E [Hsplit [Hle [Hsame [Hnew Hhead]]]]]]]].
       exists (f :: sk), frs', st'.
       assert (fo + scan_len (f :: sk) = fo + f_rows f + scan_len sk) as Elen by (rewrite (scan_len_cons f sk W); lia).
       rewrite Elen. repeat split.
@@ -254,28 +254,8 @@ Proof.
       * cbn [app]. f_equal. exact Hsplit.
       * exact Hle.
       * intro C; discriminate C.
-      * intros _. destruct sk as [|s sk']; [|apply Hnew; discriminate].
-        (* nothing more was skipped: the state is the fresh one passed down *)
-        cbn [app] in Hsplit. subst frs'. clear -E.
-        destruct rest as [|g rest']; cbn [skip_frags] in E.
-        { inversion E; reflexivity. }
-        { destruct (f_count_rows g) as [rows| |]; try discriminate E.
-          destruct (two64 <=? fo + f_rows f + rows); [discriminate E|].
-          destruct (fo + f_rows f + rows <=? so) eqn:C.
-          - exfalso. (* would have skipped g, but skipped = [] says frs' = g :: rest' *)
-            assert (forall l a b c, skip_frags l a b c = Ok (g :: rest', fo + f_rows f + scan_len [], _) -> True) by trivial.
-            clear H. revert E. generalize (fo + f_rows f + rows). intros x E.
-            assert (forall l x st so r fo' st', skip_frags l x st so = Ok (r, fo', st') -> (length r <= length l)%nat) as Len.
-            { induction l as [|h t IHl]; intros x0 st0 so0 r fo' st'0 E0; cbn [skip_frags] in E0.
-              - inversion E0; subst; lia.
-              - destruct (f_count_rows h); try discriminate E0.
-                destruct (two64 <=? x0 + a); [discriminate E0|].
-                destruct (x0 + a <=? so0).
-                + apply IHl in E0. cbn [length]. lia.
-                + inversion E0; subst. lia. }
-            apply Len in E. cbn [length] in E. lia.
-          - inversion E; reflexivity. }
+      * intros _. destruct sk as [|s sk']; [apply Hsame; reflexivity | apply Hnew; discriminate].
       * exact Hhead.
-    + exists [], (f :: rest), st. unfold scan_len at 1 2 3 4. cbn [scan flat_map length N.of_nat]. rewrite !N.add_0_r.
+    + exists [], (f :: rest), st. change (scan_len []) with 0. rewrite !N.add_0_r.
       repeat split; try reflexivity; try lia. intro C; congruence.
 Qed.
